@@ -275,6 +275,21 @@ pub fn execute(t: &Trace, opts: Opts) -> ExecResult {
         Ok(Err(e)) => {
             // constructor returned Err: legitimate or not is decided by the C05 grid oracle
             run.stats.bump("ctor_err");
+            // C05: "rejected with the matching error"
+            let want = subj::factory::invalid_categories(&t.header);
+            if let (Some(cat), false) = (subj::factory::error_category(&e), want.is_empty()) {
+                if !want.contains(&cat) {
+                    run.viol(
+                        "C05",
+                        "ctor_wrong_error",
+                        -1,
+                        &nop,
+                        format!("constructor returned Err({}) (category {}) but the invalid arguments are {:?}", e, cat, want),
+                    );
+                } else {
+                    run.stats.bump("ctor_error_kind_checked");
+                }
+            }
             if let Some(exp) = subj::factory::expected_ctor(&t.header) {
                 if exp.is_ok() {
                     run.viol(
